@@ -21,6 +21,7 @@ THEOREMS = [
     "Mro.classMro_accept", "Mro.classMro_no_external", "Mro.isException_iff", "Mro.findDunderConstructor_eq_lookup",
     "Mro.overrides_eq_super", "Mro.overriding_sound", "Mro.overriding_nodup", "Mro.overriding_duplicate_counterexample",
     "Mro.inherited_members_iff", "Mro.inherited_attribution",
+    "Mro.early_eq_mro_partial", "Mro.findEarly_eq_find_partial", "Mro.findEarly_diamond_counterexample",
     "Mro.second_pass_canonical", "Mro.second_pass_trigger_independent", "Mro.second_pass_wrong_scope_counterexample",
 ]
 RULE = ("exhaustive: every hierarchy of n<=5 classes in which class i takes any ordered duplicate-free list of bases "
@@ -53,6 +54,10 @@ ASSUMPTIONS = [
     "(pydoctor reports it too; both models agree on `reject`)",
 ]
 PARTIAL = {
+    "Mro.early_eq_mro_partial": "the order Class.mro() has while modules are visited (_mro is None: depth-first allbases) equals the "
+                                "final linearisation only under single inheritance without unresolved bases; with multiple "
+                                "inheritance the full statement is false of the code (Mro.findEarly_diamond_counterexample, open "
+                                "finding visit-time-lookup:allbases-order-not-mro)",
     "compute_mro.init_finalbaseobjects": "modelled as Mro.secondPass over the recorded AST-pass data (raw base names, "
                                          "_initialbaseobjects, resolveName table) and proved trigger independent; that the names "
                                          "denote the classes Python binds is checked by the direct oracle only (import cycles, all "
@@ -606,6 +611,7 @@ def gen_uses(rng, nclasses: int, h=None) -> Dict[str, Any]:
         h = [tuple(j + 1 for j in b) for b in h]
     ids = list(range(first, first + nclasses))
     lines = []
+    phantom: List[int] = []
     bases, contents, funcs = {}, {}, {}
     for c, b in zip(ids, h):
         bl = list(b)
@@ -628,9 +634,13 @@ def gen_uses(rng, nclasses: int, h=None) -> Dict[str, Any]:
                     body.append("    def __init__(self, b: str):\n        pass\n")
             else:
                 body.append("    %s = None\n" % NAMES[n])
+        if 0 not in names and rng.random() < 0.06:
+            # epytext field naming a member the class does not define: pydoctor creates a hidden phantom Attribute
+            phantom.append(c)
+            body.insert(0, '    """\n    @type m: int\n    """\n')
         lines.append("class C%d%s:\n%s" % (c, "(%s)" % ", ".join(exprs) if exprs else "", "".join(body) or "    pass\n"))
     hidden = [c for c in ids if rng.random() < 0.12]
-    return {"n": nclasses, "bases": {str(c): bases[c] for c in ids}, "contents": {str(c): contents[c] for c in ids},
+    return {"n": nclasses, "phantom": phantom, "bases": {str(c): bases[c] for c in ids}, "contents": {str(c): contents[c] for c in ids},
             "funcs": {str(c): funcs[c] for c in ids}, "hidden": hidden, "modules": {"m0": "".join(lines)}}
 
 
@@ -638,10 +648,12 @@ def uses_request(p, order: List[int]) -> str:
     ids = sorted(int(c) for c in p["bases"])
     h = [[], []] + [p["bases"][str(c)] for c in ids]
     sb = [[], []] + [[0] * len(p["bases"][str(c)]) for c in ids]
-    ct = [[], []] + [p["contents"][str(c)] for c in ids]
+    ph = p.get("phantom", [])
+    ct = [[], []] + [([0] if c in ph else []) + p["contents"][str(c)] for c in ids]   # the phantom is created first
     fn = [[], []] + [p["funcs"][str(c)] for c in ids]
-    return "mro uses %s %s %d %d %s %s %s %s" % (ltoken(h), ltoken(sb), EXC, EXC, ltoken(ct), ltoken(fn),
-                                                 ",".join(map(str, p["hidden"])) or "-", ",".join(map(str, order)) or "-")
+    return "mro uses %s %s %d %d %s %s %s %s %s" % (ltoken(h), ltoken(sb), EXC, EXC, ltoken(ct), ltoken(fn),
+                                                    ",".join(map(str, p["hidden"])) or "-", ",".join(map(str, order)) or "-",
+                                                    ",".join(map(str, ph)) or "-")
 
 
 def pd_uses(p) -> Tuple[Optional[str], List[int], Dict[int, Dict[str, Any]], Optional[str]]:
@@ -713,11 +725,24 @@ def py_uses(p) -> Dict[int, Dict[str, Any]]:
     hidden = set(p["hidden"])
     res: Dict[int, Dict[str, Any]] = {}
     all_ok = all(v == "ok" for v in status.values())
+    # `@type m:` in the docstring of a class that inherits a *variable* m declares (re-types) that variable for the
+    # class, like @ivar would (pydoctor's own test_ivar_overriding_attribute): such a class counts as defining m.
+    # For an inherited method, or nothing, the field declares nothing.
+    declared: set = set()
+
+    def defines(k, name):
+        return name in k.__dict__ or (name == "m" and ident.get(k) in declared)
+    for c in sorted(p.get("phantom", [])):
+        t = classes.get(c)
+        if t is not None:
+            k = next((k for k in t.__mro__[1:] if k in ident and defines(k, "m")), None)
+            if k is not None and 0 not in p["funcs"][str(ident[k])]:
+                declared.add(c)
     for c, t in classes.items():
         gens = [k for k in t.__mro__ if k in ident]
 
         def owner(name, seq):
-            return next((k for k in seq if name in k.__dict__), None)
+            return next((k for k in seq if defines(k, name)), None)
         ctor = None
         k = owner("__new__", gens)
         if k is not None:
@@ -742,7 +767,7 @@ def py_uses(p) -> Dict[int, Dict[str, Any]]:
             def down(k):
                 for d in classes.values():
                     if k in d.__bases__ and ident[d] not in hidden:
-                        if "m" in d.__dict__:
+                        if defines(d, "m"):
                             over.add(ident[d])
                         else:
                             down(d)
@@ -753,6 +778,14 @@ def py_uses(p) -> Dict[int, Dict[str, Any]]:
 
 
 def uses_oracle(ctx: Ctx, p, pd, py) -> None:
+    real_ctx = ctx
+    if p.get("phantom"):
+        # a hidden phantom Attribute made from an `@type name:` field masks the inherited member of that name:
+        # every attribution failure in such a project is classified under that cause
+        class _Ph:
+            def fail(self, sig, inp, what):
+                real_ctx.fail("inherited-member-masked-by-type-field-phantom", inp, what + " [" + sig + "]")
+        ctx = _Ph()   # type: ignore
     for c, b in py.items():
         a = pd[c]
         inp = {"project": p, "class": c}
@@ -769,6 +802,119 @@ def uses_oracle(ctx: Ctx, p, pd, py) -> None:
                 ctx.fail("uses:overridden-in", inp, f"C{c}.m overridden in {a['over']}, by the class statements {sorted(b['over'])}")
             elif len(set(a["over"])) != len(a["over"]):
                 ctx.fail("overridden-in:listed-twice", inp, f"C{c}.m: overriding_subclasses yields {a['over']} (a subclass reached through two bases is listed twice)")
+
+
+# ------------------------------------------------------------------ names looked up through a class DURING the visit
+
+def gen_visit(rng, nclasses: int, h=None) -> Dict[str, Any]:
+    """one module: some classes define a nested class `Inner` and a member `w` (method or plain attribute); after the
+    hierarchy come probes that make pydoctor look a name up through a class while `_mro` is still None:
+    `class Xk(Ck.Inner)`, `alias_k = Ck.Inner`, and `class Pk(Ck): w = staticmethod(len)` (astbuilder._maybeAttribute)"""
+    first = 2
+    if h is None:
+        h = random_hierarchy(rng, nclasses, first)
+    else:
+        h = [tuple(j + 1 for j in b) for b in h]
+    ids = list(range(first, first + nclasses))
+    inner = [c for c in ids if rng.random() < 0.45]
+    wkind = {c: rng.choice("fa") for c in ids if rng.random() < 0.45}
+    return visit_project({str(c): list(b) for c, b in zip(ids, h)}, inner, wkind)
+
+
+def visit_project(bases: Dict[str, List[int]], inner: List[int], wkind: Dict[Any, str]) -> Dict[str, Any]:
+    wkind = {int(k): v for k, v in wkind.items()}
+    ids = sorted(int(c) for c in bases)
+    lines = []
+    for c in ids:
+        body = ""
+        if c in inner:
+            body += "    class Inner:\n        def f(self):\n            \"Inner of C%d\"\n" % c
+        if c in wkind:
+            body += "    def w(self):\n        pass\n" if wkind[c] == "f" else "    w = 1\n"
+        lines.append("class C%d%s:\n%s" % (c, "(%s)" % ", ".join("C%d" % j for j in bases[str(c)]) if bases[str(c)] else "",
+                                             body or "    pass\n"))
+    src = "".join(lines)
+    # which probes are legal Python is CPython's call
+    ns: Dict[str, Any] = {}
+    for st in ast.parse(src).body:
+        try:
+            exec(compile(ast.Module(body=[st], type_ignores=[]), "m0", "exec"), ns)
+        except (TypeError, NameError):
+            pass
+    probes = []
+    for c in ids:
+        k = ns.get("C%d" % c)
+        if k is None:
+            continue
+        if hasattr(k, "Inner"):
+            probes.append("class X%d(C%d.Inner):\n    pass\nalias_%d = C%d.Inner\n" % (c, c, c, c))
+        probes.append("class P%d(C%d):\n    w = staticmethod(len)\n" % (c, c))
+    return {"n": len(ids), "bases": bases, "inner": inner, "wkind": {str(k): v for k, v in wkind.items()},
+            "modules": {"m0": src + "".join(probes)}}
+
+
+def run_visit(p) -> Tuple[Optional[str], str, Dict[int, Dict[str, Any]], Optional[str]]:
+    """(model request, pydoctor's answer line, per class pydoctor/CPython readings, crash)"""
+    from pydoctor import model
+    try:
+        system = model.System()
+        builder = system.systemBuilder(system)
+        builder.addModuleString(p["modules"]["m0"], "m0")
+        builder.buildModules()
+    except Exception as e:
+        return None, "", {}, "Crash:" + type(e).__name__ + ":" + str(e)[:80]
+    mod = system.allobjects["m0"]
+    ns: Dict[str, Any] = {"__name__": "m0"}
+    for st in ast.parse(p["modules"]["m0"]).body:
+        try:
+            exec(compile(ast.Module(body=[st], type_ignores=[]), "m0", "exec"), ns)
+        except (TypeError, NameError):
+            pass
+    ids = sorted(int(c) for c in p["bases"])
+    wkind = {int(k): v for k, v in p["wkind"].items()}
+    res: Dict[int, Dict[str, Any]] = {}
+    out = []
+    for c in ids:
+        o = mod.contents["C%d" % c]
+        post = o.find("Inner")
+        r: Dict[str, Any] = {"post": int(post.parent.name[1:]) if post is not None else None, "early": None}
+        x = mod.contents.get("X%d" % c)
+        if x is not None:
+            b = x.baseobjects[0]
+            r["early"] = int(b.parent.name[1:]) if b is not None else -1
+            r["alias"] = mod.expandName("alias_%d" % c)
+            k = ns.get("X%d" % c)
+            if k is not None:
+                r["py"] = int(k.__bases__[0].__qualname__.split(".")[0][1:])
+        pk, pp = ns.get("P%d" % c), mod.contents.get("P%d" % c)
+        if pk is not None and pp is not None:
+            owner = next((kk for kk in pk.__mro__[1:] if "w" in kk.__dict__), None)
+            r["w_py_owner_is_method"] = owner is not None and wkind.get(int(owner.__name__[1:])) == "f"
+            r["w_documented"] = "w" in pp.contents
+        res[c] = r
+        out.append("%s:%s" % (opt(r["early"]) if x is not None else "?", opt(r["post"])))
+    h = [[], []] + [p["bases"][str(c)] for c in ids]
+    req = "mro earlyfind %s 1 %s" % (ltoken(h), ",".join(map(str, p["inner"])) or "-")
+    return req, "|".join(out), res, None
+
+
+def visit_oracle(ctx: Ctx, p, res) -> None:
+    for c, r in res.items():
+        inp = {"project": p, "class": c}
+        if "py" in r:
+            if r["early"] != r["py"]:
+                ctx.fail("visit-time-lookup:allbases-order-not-mro", inp,
+                         f"class X{c}(C{c}.Inner): Python's base is C{r['py']}.Inner, pydoctor resolved C{r['early']}.Inner")
+            elif r["alias"] != "m0.C%d.Inner" % r["py"]:
+                ctx.fail("visit-time-lookup:allbases-order-not-mro", inp,
+                         f"alias_{c} = C{c}.Inner: Python binds C{r['py']}.Inner, pydoctor expands to {r['alias']}")
+            if r["post"] != r["py"]:
+                ctx.fail("find-differs", inp, f"C{c}.find('Inner') after post-processing: C{r['post']}, Python C{r['py']}")
+        if "w_documented" in r and r["w_documented"] == r["w_py_owner_is_method"]:
+            ctx.fail("visit-time-lookup:allbases-order-not-mro", inp,
+                     f"class P{c}(C{c}): w = staticmethod(len): the w Python inherits is "
+                     f"{'a method' if r['w_py_owner_is_method'] else 'an attribute or nothing'} but P{c}.w is "
+                     f"{'documented as a new attribute' if r['w_documented'] else 'not documented'} (_maybeAttribute looked along allbases())")
 
 
 def opt(x) -> str:
@@ -1019,8 +1165,42 @@ def run(ctx: Ctx) -> None:
             ctx.count("uses:overrides:" + ("some" if r["overrides"] else "none"))
             ctx.count("uses:inherited-members", len(r["inh"]))
             ctx.count("uses:overridden-in", len(r["over"]))
+        ctx.count("uses:projects-with-type-field-phantom", int(bool(p.get("phantom"))))
         uses_oracle(ctx, p, pd, py)
     ctx.compare("mro()/is_exception/constructor/override/inherited~Mro(uses)", ureq, uout, upay)
+
+    # ---- names looked up through a class while the modules are visited (`_mro` is None: Class.mro() = allbases order)
+    vprojects = load_corpus("visit")
+    ctx.count("corpus:visit", len(vprojects))
+    for n in range(1, 5 if ctx.quick else 6):
+        for h in hierarchies(n):
+            vprojects.append(gen_visit(ctx.rng, n, h=h))
+    for _ in range(100 if ctx.quick else 3000):
+        vprojects.append(gen_visit(ctx.rng, ctx.rng.randint(5, 9)))
+    vreq, vout, vpay = [], [], []
+    for p in vprojects:
+        req, line, res, crash = run_visit(p)
+        if crash:
+            ctx.fail("crash:" + crash.split(":")[1], {"project": p}, crash)
+            continue
+        ctx.case("visit " + p["modules"]["m0"], any(len(b_) >= 2 for b_ in p["bases"].values()))
+        ctx.count("visit:projects")
+        ctx.count("visit:base-through-inherited-nested-class", sum(1 for r in res.values() if "py" in r))
+        ctx.count("visit:early-owner-differs-from-final", sum(1 for r in res.values() if "py" in r and r["early"] != r["post"]))
+        ctx.count("visit:_maybeAttribute-probes", sum(1 for r in res.values() if "w_documented" in r))
+        # the model answers for every class; pydoctor's visit-time owner is only observable where a probe exists
+        vreq.append(req)
+        vout.append(line)
+        vpay.append({"project": p})
+        visit_oracle(ctx, p, res)
+    if ctx.model_ok and vreq:
+        outs = ctx.driver.run_parallel(vreq)
+        for rq, mo, io, pl in zip(vreq, outs, vout, vpay):
+            ctx.traces_validated += 1
+            ok = all(i.startswith("?:") and m.split(":")[1] == i.split(":")[1] or m == i
+                     for m, i in zip(mo.split("|"), io.split("|"))) and mo.count("|") == io.count("|")
+            if not ok:
+                ctx.disagree("expandName-at-visit-time~Mro.findEarly", pl, mo, io)
 
     # ---- Generic[T] at any position among the bases (typing drops it when a later base is subscripted; so does
     #      compute_mro.getbases since commit 749fc3a): models (localBases / mroEntries) and direct oracle
@@ -1057,7 +1237,7 @@ def load_corpus(kind: str) -> List[Dict[str, Any]]:
     for f in sorted((VERIF / "corpus" / "C05").glob("*.json")):
         d = json.loads(f.read_text())
         if d.get("kind") == kind:
-            res.append(d["project"])
+            res.append(visit_project(**d["project"]) if kind == "visit" else d["project"])
     return res
 
 
